@@ -570,13 +570,21 @@ pub fn dump<S: MdkStorageProvider>(s: &S) -> String {
             }
         }
     }
+    let mut idx = vec![];
+    for n in 10..=16u64 {
+        idx.push(match s.find_group_by_nostr_group_id(&be32(n)) {
+            Ok(Some(g)) => format!("{n}>{}.{}.{}", gid_num(&g.mls_group_id), g.epoch, g.name.len()),
+            _ => format!("{n}>-"),
+        });
+    }
     format!(
-        "G{}P{}W{}Q{}X{}",
+        "G{}P{}W{}Q{}X{}I{}",
         per_group,
         list(pms.iter(), |p| show_pm(p)),
         list(ws.iter(), |w| show_welcome(w)),
         list(pws.iter(), |p| show_pw(p)),
-        list(mls, |x| x.clone())
+        list(mls, |x| x.clone()),
+        list(idx, |x| x.clone())
     )
 }
 
